@@ -358,7 +358,8 @@ def lower(v, _seen=None):
                 and not dataclasses.is_dataclass(v.cls):
             REG.register(v.cls, sorted(v.attrs))
         info = REG.info(v.cls)
-        extra = set(v.attrs) - set(info.fields)
+        # (stand-in methods that a contract's setup attached to the object are not state)
+        extra = {a for a in set(v.attrs) - set(info.fields) if type(v.attrs[a]).__name__ != "ModelMethod"}
         if extra:
             raise LowerError(f"{v.cls.__name__} object has attributes {sorted(extra)} outside its registered fields")
         fields = []
